@@ -1,5 +1,7 @@
 import PRV.Model.Handshake
 import PRV.Gen.Wiring
+import PRV.Gen.C15
+import PRV.Model.AnswerRace
 /-
 C15 — Handshake correlated and ordered per connection; contract routing correct.
 Per-event theorems about `Model/Handshake.lean` for every connection state (hence every order of
@@ -326,5 +328,30 @@ theorem source_handler_clones_destination :
     lookupW PRV.Gen.Wiring.handlerSchedulerArgs "defaultDest" = some "url" ∧
     lookupW PRV.Gen.Wiring.handlerLocals "url" = some "lib.CopyURL(defaultDestUrl)" ∧
     lookupW PRV.Gen.Wiring.proxyFields "destURL" = some "atomic.NewPointer(destURL)" := by decide
+
+
+/-! ### replies are correlated with requests: the answer's handler is in place before the pool can answer (regenerated order) -/
+
+section answerRace
+open PRV.Model.AnswerRace
+
+/-- each of the three handshake handlers registers the answer's callback before it writes the request -/
+theorem source_handler_registered_before_write :
+    PRV.Gen.C15.onMiningConfigureCalls = ["dest.onceResult", "dest.Write"] ∧
+    PRV.Gen.C15.onMiningSubscribeCalls = ["dest.onceResult", "dest.Write"] ∧
+    PRV.Gen.C15.onMiningAuthorizeCalls = ["dest.onceResult", "dest.Write"] := by decide
+
+/-- **in the code's order the pool's answer always finds its handler**, however the reader goroutine is scheduled against the
+sender (over the regenerated order of each handler): the miner gets one acknowledgement and the handshake goes on -/
+theorem answer_finds_its_handler :
+    ∀ calls ∈ [PRV.Gen.C15.onMiningConfigureCalls, PRV.Gen.C15.onMiningSubscribeCalls, PRV.Gen.C15.onMiningAuthorizeCalls],
+      ∀ tr ∈ merges (senderOf calls) [.answer], valid tr = true → good (run tr) = true := by decide
+
+/-- written first and registered afterwards, a fast pool's answer can be read in between: no handler is found, the answer goes
+to the miner as a second result and the handshake never completes -/
+theorem write_before_register_loses_the_answer :
+    ∃ tr ∈ merges [.write, .register] [.answer], valid tr = true ∧ good (run tr) = false := by decide
+
+end answerRace
 
 end PRV.Props.C15
